@@ -168,11 +168,12 @@ LEscape(c, o, escLF) ==
   ELSE IF c \in {LT, GT, AMP, QUOT, APOS} THEN <<Ref(c)>>
   ELSE IF c >= 65536 THEN <<Ref(c)>>                                      \* surrogate pair -> one reference to the code point
   ELSE IF IsHigh(c) THEN Err                                              \* throwInvalidUTF16SurrogateException
-  ELSE IF c > LMax(o.enc) \/ c = LSEP THEN <<Ref(c)>>                     \* (LSEP gets here above the maximum or under XML 1.1)
+  ELSE IF c > LMax(o.enc) THEN <<Ref(c)>>
   ELSE IF c < 256 /\ LAttrS(c)
        THEN IF c < 32
             THEN IF o.ver = V11 \/ c \in {TAB, LF, CR} THEN <<Ref(c)>> ELSE Err    \* throwInvalidCharacterException
             ELSE <<Ref(c)>>
+  ELSE IF c = LSEP THEN <<Ref(c)>>                                        \* gets here under XML 1.1 only
   ELSE <<Lit(c)>>
 
 (* characters() *)
